@@ -652,15 +652,16 @@ func main() {
 	}
 	// defer of builtins: probe (the generator avoids the class while this gomacro cannot compile it) + corpus programs
 	noBuiltin := false
+	registered := registeredKeys(os.Getenv("VERIF_DIR"))
 	{
 		it := newInterp()
 		perr := vh.Catch(func() {
 			it.ir.Eval("func biprobe() (r int) {\n\tm := map[int]int{1: 1}\n\tdefer delete(m, 1)\n\treturn len(m)\n}\n")
 		})
-		noBuiltin = perr != nil
-		rep.Extra["defect_present:"+biKey] = noBuiltin
+		rep.Extra["defect_present:"+biKey] = perr != nil
+		// once the finding is registered (fixed by C07-2) the class is generated whatever the probe says: a regression fails
+		noBuiltin = perr != nil && !registered["corpus:bi-delete"]
 	}
-	registered := registeredKeys(os.Getenv("VERIF_DIR"))
 	deferred := []string{}
 	var progs []*prog
 	if a.Replay == "" {
